@@ -18,7 +18,7 @@ def run_bounded(run, pid, module=None):
         run.bounded.append(b)
 
 
-LEAN_CHECKED = ["reach_induction", "reach_trans", "reach_sym", "reach_common", "reach_mono", "psum_monotone", "psum_congruence", "count_lemma", "lattice_connected_lemma", "astar_cut", "unravel"]
+LEAN_CHECKED = ["reach_induction", "reach_trans", "reach_sym", "reach_common", "reach_mono", "psum_monotone", "psum_congruence", "count_lemma", "lattice_connected_lemma", "astar_cut", "unravel", "nd3", "psum_room"]
 LEAN_FILES = ["Lemmas.lean", "Lattice.lean", "AstarCut.lean", "Unravel.lean"]
 
 
